@@ -228,5 +228,42 @@ pub fn run(mut ctx0: Ctx) {
             }
         }
     }
+    // ---- the download side towards a slow client: the codec blocks in its transport write while the
+    // payload, the end of stream and possibly the drop of the sink arrive -------------------------------
+    {
+        let ctx = &mut ctx0;
+        let head = b"CONNECT example.org:443 HTTP/1.1\r\nHost: example.org:443\r\n\r\n".to_vec();
+        for size in [0usize, 10, 4096, 70000] {
+            for capacity in [64usize, 1000] {
+                for read_step in [16usize, 64] {
+                    for drop_sink in [false, true] {
+                        let download: Vec<u8> = (0..size).map(|i| b'a' + (i % 26) as u8).collect();
+                        let opts = vh1::ClientOpts { capacity, read_step, drop_sink_after_eof: drop_sink, client_closes_last: true };
+                        let desc = format!("CONNECT answered 200, {} payload bytes towards a client reading {} bytes at a time over a {}-byte transport, sink {} after eof()", size, read_step, capacity, if drop_sink { "dropped" } else { "flushed" });
+                        let st2 = st.clone();
+                        let (h2, d2) = (head.clone(), download.clone());
+                        let handle = rt.spawn(async move { vh1::session_with(st2, vec![h2], true, d2, opts).await });
+                        let obs = rt.block_on(async { tokio::time::timeout(std::time::Duration::from_secs(8), handle).await });
+                        ctx.stat("slow_client_sessions");
+                        match obs {
+                            Ok(Ok(o)) => {
+                                let out = &o.transport_out;
+                                let body_ok = out.starts_with(b"HTTP/1.1 200 OK\r\n")
+                                    && out.windows(4).position(|w| w == b"\r\n\r\n").map(|p| out[p + 4..] == download[..]).unwrap_or(false);
+                                if !body_ok || !o.transport_eof || !o.session_ok {
+                                    ctx.oracle_failure(
+                                        "download_not_finished",
+                                        &format!("{}: client got {} bytes (complete and unaltered: {}), end of stream seen: {}, session ended gracefully: {}", desc, out.len(), body_ok, o.transport_eof, o.session_ok),
+                                    );
+                                }
+                            }
+                            Ok(Err(e)) => ctx.oracle_failure("panic", &format!("HTTP/1.1 session panicked ({}): {}", e, desc)),
+                            Err(_) => ctx.oracle_failure("spin_or_hang", &format!("HTTP/1.1 session did not finish in 8 s: {}", desc)),
+                        }
+                    }
+                }
+            }
+        }
+    }
     ctx0.finish();
 }
